@@ -485,8 +485,7 @@ def r7(ctx):
             ctx.ok(rule, "Vec#elements", detail)
 
 
-def r8(ctx):
-    rule = "C17.R8"
+def r8(ctx, rule="C17.R8"):
     ctx.rule(rule, "the root flag is consumed: a ProtobufWriter method that looks at `is_root` and then hands the writer to nested "
                    "content (the closure of a SEQUENCE/SET, Constraint::write_content of a CHOICE) has cleared the flag with "
                    "mem::take / mem::replace on a block dominating that hand-over - otherwise the nested message is written as if it "
@@ -513,7 +512,7 @@ def r8(ctx):
                      % (b.name, late[0].loc()), late[0].loc(), detail)
         else:
             ctx.ok(rule, b.name, detail)
-    ctx.floor(rule, n, "C17.R8.containers")
+    ctx.floor(rule, n, rule + ".containers")
 
 
 def run(ctx):
